@@ -3,6 +3,7 @@ package gogu
 import (
 	"errors"
 	"sort"
+	"sync"
 
 	"golang.org/x/exp/constraints"
 )
@@ -124,31 +125,53 @@ func MapCollection[K comparable, V any](m map[K]V, fn func(V) V) []V {
 	return result
 }
 
+// keyScratch recycles the slices used by Find for sorting the map keys. Lookups are
+// typically issued in bursts over maps of the same type, so the sorted key slice
+// does not have to be allocated again on every call.
+var keyScratch sync.Pool
+
+// releaseKeys hands the slice back for reuse by a later call.
+func releaseKeys[K any](keys []K) {
+	keyScratch.Put(&keys)
+}
+
 // Find iterates over the elements of a map and returns the first item for which the callback function returns true.
 func Find[K constraints.Ordered, V any](m map[K]V, fn func(V) bool) map[K]V {
-	var result = make(map[K]V)
+	var inl1_v0 []K
+inl1done:
+	switch {
+	default:
+		var n int = len(m)
+		_ = n
+		if s, ok := keyScratch.Get().(*[]K); ok && len(*s) >= n {
+			{
+				inl1_v0 = *s
+				break inl1done
+			}
+		}
+		{
+			inl1_v0 = make([]K, n)
+			break inl1done
+		}
+	}
+	var (
+		result = make(map[K]V)
+		keys   = inl1_v0
+	)
+	defer releaseKeys(keys)
+	var i = 0
 
 	// When iterating over a map with a range loop, the order is not guaranteed
 	// to be preserved from one iteration to the next.
 	// We have to store the keys in a separate data structure like a slice
 	// which will be sorted before checking the existence of a value in the map.
 	// This way we ensure, that on duplicate values always the first one is returned.
-	var inl1_v0 []K
-	{
-		var m map[K]V = m
-		_ = m
-		var (
-			keys = make([]K, len(m))
-			i    = 0
-		)
-		for k := range m {
-			keys[i] = k
-			i++
-		}
-		sort.Slice(keys, func(i, j int) bool { return keys[i] < keys[j] })
-		inl1_v0 = keys
+	for k := range m {
+		keys[i] = k
+		i++
 	}
-	for _, k := range inl1_v0 {
+	sort.Slice(keys, func(i, j int) bool { return keys[i] < keys[j] })
+	for _, k := range keys {
 		if fn(m[k]) {
 			result[k] = m[k]
 			break
